@@ -671,14 +671,17 @@ func runC10Seq(rec *common.Recorder, idx uint64, seed uint64) bool {
 				s.logOp("epilogue fulfill nil")
 			}
 			s.checkShutdowns("epilogue")
+			if cc.numViol() > 0 {
+				break
+			}
 		}
 		for i, n := range s.nodes {
-			if !n.shut {
+			if ok && cc.numViol() == 0 && !n.shut {
 				cc.violate("C10/model-bug", "model left a hook alive at the end", fmt.Sprintf("hook=%d refs=%d", i, n.refs))
 			}
 		}
 		for wi, w := range s.weaks {
-			if w.w == nil {
+			if w.w == nil || !ok || cc.numViol() > 0 {
 				continue
 			}
 			var c *capnp.Client
